@@ -64,7 +64,8 @@ def requirements(tier):
             'json_cases': 7000 if q else 90000,
             'json_sink_calls': 45000 if q else 600000,
             'json_indent_0': 2000 if q else 25000,
-            'fd_checks': 120000 if q else 1600000}
+            'fd_checks': 120000 if q else 1600000,
+            'file_name_documents': 20}
 
 
 _dir = None
@@ -315,6 +316,30 @@ def sink_calls(ctx, case, label, dump, obj, expect, kw, counter):
     r, fd_ok, fdinfo = outcome(dump, obj, s, **kw)
     fdcheck('StringIO', fd_ok, fdinfo, r)
     judge('StringIO', r, s.getvalue())
+    # a text stream that already holds something: a header line, or an
+    # earlier dump - what is appended must be exactly the dumps text
+    head = '# written before\n'
+    s = io.StringIO()
+    s.write(head)
+    r, fd_ok, fdinfo = outcome(dump, obj, s, **kw)
+    got = s.getvalue()
+    judge('StringIO-prefilled', r, got[len(head):] if got.startswith(head)
+          else got)
+    if r[0] == 'ok':
+        n0 = len(got)
+        r2, _, _ = outcome(dump, obj, s, **kw)
+        judge('StringIO-second-dump', r2, s.getvalue()[n0:])
+    path = workfile()
+    with open(path, 'w', encoding='utf-8', newline='') as f:
+        f.write(head)
+    f = open(path, 'a', encoding='utf-8', newline='')
+    try:
+        r, fd_ok, fdinfo = outcome(dump, obj, f, **kw)
+    finally:
+        f.close()
+    got = readback(path)
+    judge('textfile-append', r, got[len(head):] if got and got.startswith(
+        head) else got)
 
 
 def opt_feature(kw):
@@ -446,6 +471,19 @@ def shard(ctx):
                         jo.append((0, rng.random() < 0.5))
                 run_dump(ctx, spec, v, jo)
         spec0 = {'classes': [], 'doc_type': 'any'}
+        # a document whose whole text is the name of an existing file is
+        # still a document (a plain scalar), whatever the source kind
+        names = [workfile(), os.path.join(env.VERIF, 'MANIFEST.json'),
+                 'MANIFEST.json', 'vcheck.py', '/etc/hostname', '.',
+                 os.path.join(env.REPO, 'setup.py')]
+        with open(names[0], 'w') as f:
+            f.write('inside: the file\n')
+        for i, nm in enumerate(names):
+            if ctx.mine(i):
+                for dt in ('any', 'str', 'path', ['union', 'str', 'int']):
+                    ctx.count('file_name_documents')
+                    run_load(ctx, {'classes': [], 'doc_type': dt}, nm,
+                             'file-name')
         for i, s in enumerate(NEWLINE_DOCS):
             if ctx.mine(i):
                 run_load(ctx, spec0, s, 'newline')
